@@ -72,9 +72,30 @@ Definition simple_match (m o : list (Z * cell)) : bool :=
                      | None => false
                      end) m.
 
-Definition char_ok (c : ascii) : bool := ((32 <=? code c) && (code c <=? 126)) || (code c =? 9).
+(* stage 6: string cells of every character except NUL and CR (a CR is rewritten by the universal-newlines
+   text mode of the readers; csv before Python 3.11 rejects NUL): control characters, the line boundaries of
+   str.splitlines (LF VT FF FS GS RS NEL LS PS), non-ASCII text as its UTF-8 bytes *)
+Definition char_ok (c : ascii) : bool := negb ((code c =? 0) || (code c =? 13)).
 Definition text_ok (s : string) : bool := forallb char_ok (s2l s).
 Definition cell_text_ok (v : value) : bool := match v with VStr s => text_ok s | _ => true end.
+(* int() / float() reject every string holding a character that is neither white space, a decimal digit, a
+   sign, '_', '.', nor a letter of e / inf / nan / infinity: a printable ASCII character outside that alphabet
+   (a "mark") makes the string non-numeric whatever else it holds (Unicode white space and non-ASCII decimal
+   digits, which the byte model of py_int / py_float does not know, then do not matter).  Without a mark the
+   string must be plain ASCII (no FS GS RS US, which Python strips as white space and the model does not). *)
+Definition num_alpha_char (c : ascii) : bool :=
+  is_digit c || existsb (Ascii.eqb c) (s2l "+-_.einfatyEINFATY").
+Definition mark_char (c : ascii) : bool := (33 <=? code c) && (code c <=? 126) && negb (num_alpha_char c).
+Definition plain_char (c : ascii) : bool := (code c <? 28) || ((32 <=? code c) && (code c <? 128)).
+Definition str_wide_ok (s : string) : bool :=
+  negb (String.eqb s "") && (forallb plain_char (s2l s) || existsb mark_char (s2l s)) && text_ok s &&
+  match py_int (s2l s), py_float (s2l s) with None, None => true | _, _ => false end.
+Definition value_wide_ok (v : value) : bool :=
+  match v with VStr s => str_wide_ok s | _ => value_ok v end.
+Definition row_wide_ok (r : row) : bool :=
+  nodup_b (map fst r) && forallb (fun kv => no_tab (fst kv) && str_csv_ok (fst kv) && value_wide_ok (snd kv)) r.
+Definition simple_value_wide_ok (v : value) : bool :=
+  match v with VStr s => str_wide_ok s | _ => simple_value_ok v end.
 (* _try_make_number alone: every ASCII white space too *)
 Definition num_text_ok (s : string) : bool :=
   forallb (fun c => ((32 <=? code c) && (code c <=? 126)) || ((9 <=? code c) && (code c <=? 13))) (s2l s).
@@ -143,7 +164,7 @@ Definition check (c : case) : list Z :=
       | _ => [1; 21; 22]
       end
   | InTsv dl first excl n rows, o =>
-      if negb (forallb row_ok rows && forallb (fun r => forallb (fun kv => cell_text_ok (snd kv)) r) rows &&
+      if negb (forallb row_wide_ok rows && forallb (fun r => forallb (fun kv => cell_text_ok (snd kv)) r) rows &&
                forallb (fun r => forallb (fun kv => value_lim (snd kv)) r) rows &&
                (1 <=? n) && (n <=? 12) &&
                (2 <=? zlen (fields_of first excl rows)) && forallb is_ident (fields_of first excl rows))
@@ -158,7 +179,7 @@ Definition check (c : case) : list Z :=
       | _ => [1; 24; 25]
       end
   | InSimple dl field data, o =>
-      if negb (znodup_b (map fst data) && forallb (fun kv => simple_value_ok (snd kv) && cell_text_ok (snd kv)) data &&
+      if negb (znodup_b (map fst data) && forallb (fun kv => simple_value_wide_ok (snd kv) && cell_text_ok (snd kv)) data &&
                forallb (fun kv => in_limit (fst kv) && value_lim (snd kv)) data && is_ident field)
       then [3] else
       match o with
